@@ -46,6 +46,19 @@ KEY = "c19f5ec2e7a1b2c3d4e5f60718293a4b5c6d7e8f"      # 40 characters: the shape
 SEL_F14 = "F14_live_config_written_unmasked"
 SEL_F15 = "F15_structured_config_with_wandb"
 SEL_REUSE = "reuse_chunks_with_unset_part_names"
+SEL_REUSE_BU = "reuse_np_chunks_bottomup_labels_none"
+
+
+def outside_reuse_domain(spec) -> str | None:
+    """chunk re-use cells on which the unchanged code is known to fail (findings F131 / F132, replayed from
+    the corpus on every run): kept out of the generated grid and of the model correspondence"""
+    if not spec.get("use_existing"):
+        return None
+    if spec["model_type"] != "centroid" and not (spec.get("opts") or {}).get("explicit_names"):
+        return SEL_REUSE
+    if spec["model_type"] == "bottomup" and spec["framework"] == "torch_dataset_np_chunks":
+        return SEL_REUSE_BU
+    return None
 MODEL_TYPES = ["single_instance", "centroid", "centered_instance", "bottomup"]
 FRAMEWORKS = ["torch_dataset", "torch_dataset_np_chunks", "litdata"]
 WANDB_MODES = ["offline", None, "online"]        # config-level; the environment always forces offline
@@ -199,7 +212,8 @@ def full_grid():
         for f in FRAMEWORKS:
             for w, k, st, d in itertools.product((False, True), repeat=4):
                 for wm in WANDB_MODES:
-                    for x in ((False, True) if f != "torch_dataset" else (False,)):
+                    reuse_ok = f == "litdata" or (f == "torch_dataset_np_chunks" and m != "bottomup")   # F132
+                    for x in ((False, True) if reuse_ok else (False,)):
                         for mf in ((False, True) if f == "torch_dataset" else (False,)):
                             out.append(mk_spec(m, f, w, k, st, d, wandb_mode=wm, use_existing=x, mem_fallback=mf))
     return out
@@ -620,6 +634,11 @@ def oracle(res: dict) -> list[dict]:
                    and not (spec.get("opts") or {}).get("explicit_names")
                    and res.get("outcome") == "raised" and raised.get("phase") == "train"
                    and raised.get("type") == "TypeError" and "NoneType" in raised.get("msg", ""))
+    # finding F132: BottomUpDataset reads labels.skeletons although re-use runs pass labels=None
+    reuse_bu_crash = (outside_reuse_domain(spec) == SEL_REUSE_BU and res.get("outcome") == "raised"
+                      and raised.get("phase") == "train" and raised.get("type") == "AttributeError"
+                      and "skeletons" in raised.get("msg", ""))
+    known_crash = SEL_F15 if f15_crash else SEL_REUSE if reuse_crash else SEL_REUSE_BU if reuse_bu_crash else None
     # (o1) completes without error
     if res.get("outcome") != "ok":
         if injected and raised.get("type") in ("RuntimeError", "KeyboardInterrupt") \
@@ -628,7 +647,7 @@ def oracle(res: dict) -> list[dict]:
         else:
             fails.append({"clause": "completes_without_error",
                           "detail": f"{raised.get('phase')}: {raised.get('type')}: {raised.get('msg', '')[:200]}",
-                          "selector": SEL_F15 if f15_crash else SEL_REUSE if reuse_crash else None})
+                          "selector": known_crash})
     # (o2) at no boundary does any file under the output tree contain the key
     last_write: dict[str, dict] = {}
     ctor = True
@@ -707,7 +726,7 @@ def oracle(res: dict) -> list[dict]:
     #      created by this run or re-used; not demanded of a process that died outside train()'s try
     if c["delete"] and not died_outside_try and res.get("chunk_files"):
         fails.append({"clause": "chunks_deleted_when_requested",
-                      "selector": SEL_F15 if f15_crash else SEL_REUSE if reuse_crash else None,
+                      "selector": known_crash,
                       "detail": f"left behind: {res.get('chunk_files')[:4]}"})
     # (o5') and never deleted when NOT requested: a chunk run with the flag off keeps its chunks
     if not c["delete"] and (c["fw"] != "KMem" or c["memfb"]) and res.get("outcome") == "ok" \
@@ -723,12 +742,22 @@ def choose_specs(run: core.Run, model_by_cell: dict | None):
     grid = full_grid()
     rng = run.rng
     quick = run.tier == "quick"
-    specs, uncovered = covering_subset(rng, grid, 16 if quick else 60)
+    specs, uncovered = covering_subset(rng, grid, 16 if quick else 40)
     run.coverage["pairwise_uncovered"] = uncovered
     for s in specs:
         o = draw_opts(rng, s)
         if o:
             s["opts"] = o
+    # every run set has a YAML-loaded configuration with `preprocessing.scale: null` (the constructor
+    # normalises it to 1.0 AFTER the initial save) and one whose crop size is computed by the constructor
+    for s in specs:
+        if not s["structured"]:
+            s.setdefault("opts", {})["scale"] = None
+            break
+    for s in specs:
+        if s["model_type"] == "centered_instance" and not s.get("use_existing"):
+            s.setdefault("opts", {})["crop_auto"] = True
+            break
     have = set()
 
     def add(s, witness=False):
@@ -753,9 +782,9 @@ def choose_specs(run: core.Run, model_by_cell: dict | None):
     if uncovered or not quick:
         for wm in (None, "online"):
             add(mk_spec(pick(MODEL_TYPES), pick(FRAMEWORKS[:2]), True, coin(), coin(), wandb_mode=wm))
-        add(mk_spec(pick(MODEL_TYPES), "torch_dataset_np_chunks", coin(), coin(), coin(), delete_chunks=True,
+        add(mk_spec(pick(MODEL_TYPES[:3]), "torch_dataset_np_chunks", coin(), coin(), coin(), delete_chunks=True,
                     use_existing=True))
-        add(mk_spec(pick(MODEL_TYPES), pick(FRAMEWORKS[1:]), False, False, coin(), delete_chunks=False,
+        add(mk_spec(pick(MODEL_TYPES[:3]), pick(FRAMEWORKS[1:]), False, False, coin(), delete_chunks=False,
                     use_existing=True))
         add(mk_spec(pick(MODEL_TYPES), "litdata", coin(), coin(), coin(), delete_chunks=True))
         add(mk_spec(pick(MODEL_TYPES), "torch_dataset", coin(), coin(), coin(), delete_chunks=True, mem_fallback=True))
@@ -802,7 +831,8 @@ def choose_specs(run: core.Run, model_by_cell: dict | None):
                 rank = lambda k: (k[2] == "KLit", k[6], k[7], k)
                 c = dict(zip(CELL_FIELDS, sorted(keys, key=rank)[0][:-1]))
                 fw = {v: k for k, v in FW_CELL.items()}[c["fw"]]
-                add(mk_spec(pick(MODEL_TYPES), fw, c["wandb"], c["ckpt"], c["structured"], c["delete"],
+                add(mk_spec(pick(MODEL_TYPES[:3] if c["existing"] else MODEL_TYPES), fw, c["wandb"], c["ckpt"],
+                            c["structured"], c["delete"],
                             wandb_mode="offline" if c["offline"] else pick([None, "online"]),
                             use_existing=c["existing"], mem_fallback=c["memfb"]))
                 n_added += 1
@@ -881,8 +911,7 @@ def check(run: core.Run) -> int:
         mkey = cell_key(c, fault_mode(spec))
         # recorded assumption of the model: on chunk re-use the head's part_names / edges are supplied (the
         # constructor fills them in only when it creates chunks); the corpus witness of F131 violates it
-        outside_model = (bool(spec.get("use_existing")) and spec["model_type"] != "centroid"
-                         and not (spec.get("opts") or {}).get("explicit_names"))
+        outside_model = outside_reuse_domain(spec) is not None
         if model_by_cell is not None and not outside_model:
             m_t, m_o = model_by_cell[mkey]
             flt = fault_of(spec)
@@ -964,7 +993,9 @@ def check(run: core.Run) -> int:
     run.assumptions += (info.get("assumptions") or [])
     run.assumptions.append("chunk re-use (use_existing_chunks) cells: the head's part_names / edges are supplied "
                            "explicitly; with None the constructor does not fill them in on re-use and train() fails "
-                           "(finding F131, corpus witness replayed on every run, outside the effect model)")
+                           "(finding F131); np-chunk re-use is not generated for bottomup, whose dataset "
+                           "dereferences labels=None (finding F132); both corpus witnesses are replayed on every "
+                           "run, outside the effect model")
     return run.finish()
 
 
